@@ -38,6 +38,7 @@ pub fn run(case: &Value) -> Value {
     let dir = tempfile::tempdir_in(".").unwrap();
     let precision = case["precision"].as_u64().unwrap_or(2) as usize;
     let branch = case["branch"].as_bool().unwrap_or(true);
+    let demangle = case["demangle"].as_bool().unwrap_or(false);
     let mut results: Vec<ResultTuple> = Vec::new();
     let mut html_results: Vec<ResultTuple> = Vec::new();
     let srcdir = dir.path().join("src");
@@ -64,7 +65,7 @@ pub fn run(case: &Value) -> Value {
     for t in case["types"].as_array().unwrap() {
         let t = t.as_str().unwrap();
         let f = dir.path().join(format!("out_{}", t.replace('+', "plus")));
-        let r = std::panic::catch_unwind(std::panic::AssertUnwindSafe(|| one(t, &f, &results, &html_results, precision, branch)));
+        let r = std::panic::catch_unwind(std::panic::AssertUnwindSafe(|| one(t, &f, &results, &html_results, precision, branch, demangle)));
         match r {
             Ok(Some(v)) => {
                 out.insert(t.to_string(), v);
@@ -87,20 +88,20 @@ pub fn run(case: &Value) -> Value {
     Value::Object(out)
 }
 
-fn one(t: &str, f: &Path, results: &[ResultTuple], html_results: &[ResultTuple], precision: usize, branch: bool) -> Option<Value> {
+fn one(t: &str, f: &Path, results: &[ResultTuple], html_results: &[ResultTuple], precision: usize, branch: bool, demangle: bool) -> Option<Value> {
     {
         let f = f.to_path_buf();
         match t {
-            "lcov" => output_lcov(&results, Some(&f), false),
-            "ade" => output_activedata_etl(&results, Some(&f), false),
+            "lcov" => output_lcov(&results, Some(&f), demangle),
+            "ade" => output_activedata_etl(&results, Some(&f), demangle),
             "coveralls" | "coveralls+" => output_coveralls(
-                &results, None, Some("svc"), "42", Some("job7"), "", None, "", t == "coveralls+", Some(&f), "main", false, false,
+                &results, None, Some("svc"), "42", Some("job7"), "", None, "", t == "coveralls+", Some(&f), "main", false, demangle,
             ),
             "files" => output_files(&results, Some(&f)),
             "covdir" => output_covdir(&results, Some(&f), precision),
             "markdown" => output_markdown(&results, Some(&f), precision),
-            "cobertura" => output_cobertura(None, &results, Some(&f), false, false),
-            "cobertura-pretty" => output_cobertura(None, &results, Some(&f), false, true),
+            "cobertura" => output_cobertura(None, &results, Some(&f), demangle, false),
+            "cobertura-pretty" => output_cobertura(None, &results, Some(&f), demangle, true),
             "html" => {
                 output_html(&html_results, Some(&f), 2, branch, None, precision, &None, true, HtmlResources::Cdn);
                 let mut m = Map::new();
